@@ -21,13 +21,12 @@ package kernel
 //@   ensures forall i int :: 0 <= i && i < len(result0.Snapshots) ==> result0.Snapshots[i] != nil
 //@ assume func (node *Node) CheckBroadcastedToPeers
 //@   modifies nothing
-//@ assume func (recv storage.Store) ReadRound(hash)
-//@   -- a round that is referenced by the head round exists: a successful read returns it
-//@   modifies nothing
-//@   ensures err == nil ==> result0 != nil
+//@ -- (storage.Store).ReadRound: the assumed interface contract of C20 (storage/zz_contracts_c20_verif.go) is the one in force. It returns
+//@ -- (nil, nil) for an absent key; that the round referenced by the head round IS present is a store invariant stated as a precondition
+//@ -- of prepareAnnouncement below ([head-ref]).
 //@ -- determineBestRound, updateEmptyHeadRoundAndPersist, startNewRoundAndPersist: VERIFIED contracts in zz_contracts_c20_verif.go (C20). Their
-//@ -- preconditions (graph/store representation) are C20's subject and are assumed at the call sites here (trustpre); their frames (chain.State
-//@ -- round state, the chains map, the node's graph timestamp, the store version) are part of prepareAnnouncement's frame below.
+//@ -- preconditions (graph/store representation) are C20's subject (trustpre quiet); their frames (chain.State round state, the chains map,
+//@ -- the node's graph timestamp, the store version) are part of prepareAnnouncement's frame below.
 
 // ───────────── prepareAnnouncement ─────────────
 // A self announcement (CosiActionSelfEmpty) carries transactions that popAndProcessCacheQueue already took OUT of the cache queue
